@@ -123,8 +123,23 @@ def describe(c):
     return oc.describe(c) + " current=%s%s" % (c["cur"], "" if c["fault_at"] is None else " empty reply at step %d" % c["fault_at"])
 
 
-def run_stream(out, stream, cases):
-    it = world.run_cases_fresh(cases)
+def after_a_success(rnd, cases):
+    """each case as the SECOND request on an api object whose first request (another one, fully answered) succeeded: what the object saw
+    before - sessions, device states, replies - is not a source for this exchange"""
+    import asyncio
+    async def go():
+        res = []
+        for c in cases:
+            first = gen_case(rnd); first["args"][0] = c["args"][0]          # same remote
+            api = world.ScriptedApi(True, c["id"], c["key"])
+            await api.run(12, first["args"], [bytes.fromhex(r) for r in first["replies"]], c["now"] - 60)
+            res.append(await api.run(12, c["args"], [bytes.fromhex(r) for r in c["replies"]], c["now"]))
+        return res
+    return asyncio.run(go())
+
+
+def run_stream(out, stream, cases, texts=None):
+    it = texts if texts is not None else world.run_cases_fresh(cases)
     io = [view(t) for t in it]
     mo = [view(t) for t in lib.run_model([world.model_line(c) for c in cases])]
     ex = expected(cases)
@@ -160,6 +175,8 @@ def run(tier, rnd, out):
     if corpus: run_stream(out, "corpus", corpus)
     run_stream(out, "requests", [gen_case(rnd) for _ in range(700 if tier == "quick" else 12000)])
     run_stream(out, "empty-reply-at-a-step", [gen_case(rnd, fault=True) for _ in range(150 if tier == "quick" else 4000)])
+    cs = [gen_case(rnd, fault=(k % 2 == 0)) for k in range(120 if tier == "quick" else 3000)]
+    run_stream(out, "second-request-on-an-api-object-after-a-successful-one", cs, after_a_success(rnd, cs))
     run_stream(out, "requests-to-a-slow-device", world.with_delays(rnd, [gen_case(rnd, fault=(k % 4 == 0)) for k in range(80 if tier == "quick" else 2000)]))
     grid = [gen_case(rnd, fault=True, sub=sub, sep=sep, upd=upd, step=step) for sub in range(32) for sep in (False, True) for upd in (False, True)
             for step in range(4) for _ in range(1 if tier == "quick" else 6)]
@@ -170,4 +187,6 @@ def run(tier, rnd, out):
     world.REMOTES.clear()
 
 
-def replay(rp, out): run_stream(out, rp.get("stream", "replay"), [rp["input"]])
+def replay(rp, out):
+    c = rp["input"]; st = rp.get("stream", "replay")
+    run_stream(out, st, [c], after_a_success(world.random.Random(1), [c]) if st.startswith("second-request") else None)
